@@ -385,6 +385,8 @@ class Interp:
         v = self.eval(s.exc, env)
         if isinstance(v, type) and issubclass(v, BaseException):
             v = ExcVal(v, ())
+        if isinstance(v, BaseException):
+            v = ExcVal(type(v), v.args)           # a real exception instance created by an extern
         if not isinstance(v, ExcVal):
             raise OutsideSubset("raise of %r" % (v,))
         raise PyRaise(v)
@@ -689,6 +691,8 @@ class Interp:
             raise OutsideSubset("attribute %s of an exception value" % name)
         if isinstance(o, (Sym, ModelValue, MapBox, list, dict, str, tuple, set, frozenset, bytes, int, float)):
             return Method(o, name)
+        if isinstance(o, Extern) and name in o.__dict__ and name not in ('fn', 'name', 'doc', 'calls', 'native_passthrough'):
+            return o.__dict__[name]
         if isinstance(o, (Closure, Extern, Method)):
             raise OutsideSubset("attribute %s of a function" % name)
         # modules, classes and other real read-only objects
